@@ -984,9 +984,55 @@ def r_memo(c):
         raise AnalysisError(f"only {n} memoised functions found (floor 5)")
 
 
+def r_scalar_operands_keep_their_type(c):
+    """NumPy promotes by the TYPE of a scalar operand: np.float64(2) widens a float32
+    array, the Python float 2.0 does not (NEP 50).  The functions through which an
+    operand of a binary operation reaches dtype inference hand it on as it came: no
+    `.item()` / `.tolist()` and no int()/float()/complex()/bool() of the operand.  (A
+    hazard rule: the expected number of such conversions is zero.)"""
+    m = c.model
+    sites = [("pytato.array.Array", "_binary_op"), ("pytato.array.Array", "_unary_op")]
+    fns = []
+    for cls, mn in sites:
+        r = m.resolve_method(cls, mn)
+        if r is not None:
+            fns.append(r[1])
+    for qn in ("pytato.utils.broadcast_binary_op",
+               "pytato.utils.update_bindings_and_get_broadcasted_expr",
+               "pytato.utils.extract_dtypes"):
+        try:
+            fns.append(m.func(qn))
+        except Exception:     # a helper that does not exist in this tree
+            pass
+    if len(fns) < 3:
+        raise AnalysisError("anchor vanished: the functions an operand passes through "
+                            "before dtype inference (_binary_op, broadcast_binary_op, ...)")
+    for fd in fns:
+        params = {a.arg for a in fd.args.posonlyargs + fd.args.args + fd.args.kwonlyargs} \
+            - {"self", "cls"}
+        mi = m.module_of(fd)
+        qn = m.qualname(fd).replace("pytato.", "", 1)
+        bad = []
+        for x in ast.walk(fd):
+            if isinstance(x, ast.Call) and isinstance(x.func, ast.Attribute) \
+                    and x.func.attr in ("item", "tolist") and isinstance(x.func.value, ast.Name) \
+                    and x.func.value.id in params:
+                bad.append(x)
+            elif isinstance(x, ast.Call) and isinstance(x.func, ast.Name) \
+                    and x.func.id in ("int", "float", "complex", "bool") and len(x.args) == 1 \
+                    and isinstance(x.args[0], ast.Name) and x.args[0].id in params:
+                bad.append(x)
+        c.check(not bad, "R03-OPERATORS", qn, "scalar-operands-keep-their-type",
+                m.loc(mi, bad[0] if bad else fd),
+                f"`{m.frag(bad[0], 50) if bad else ''}` turns a NumPy scalar operand into a "
+                "Python scalar before the result dtype is inferred: float32_array * "
+                "np.float64(2) is then inferred float32 where NumPy gives float64")
+
+
 SPEC = Spec(
     prop="C03",
-    rules=[r_eager, r_axis, r_axis_total, r_splice, r_operators, r_slice, r_fold, r_broadcast, r_memo],
+    rules=[r_eager, r_axis, r_axis_total, r_splice, r_operators, r_slice, r_fold, r_broadcast, r_memo,
+           r_scalar_operands_keep_their_type],
     floors={"R03-EAGER": 54, "R03-AXIS": 15, "R03-SPLICE": 2, "R03-OPERATORS": 30,
             "R03-SLICE": 3, "R03-FOLD": 10, "R03-MEMO": 7},
     explanation=(
@@ -1026,7 +1072,7 @@ SPEC = Spec(
         "(E, A), (E, 1), (A, 1)) on its four consistent abstract cases: equal -> keep, "
         "new length 1 -> keep, remembered length 1 -> take the new one, otherwise "
         "raise; one-way broadcasts into a given shape likewise. "
-        "R03-FOLD also: after a working copy of a parameter (dict(p), list(p)) was modified, the parameter is neither read nor re-bound (except from the copy)."),
+        "R03-FOLD also: after a working copy of a parameter (dict(p), list(p)) was modified, the parameter is neither read nor re-bound (except from the copy). R03-OPERATORS also: the functions an operand passes through before dtype inference never convert it with .item()/.tolist()/int()/float()/complex()/bool() (NumPy promotes by the scalar's type)."),
     not_decided=(
         "dtype promotion, broadcast shapes, slice lengths and which exception type "
         "NumPy would raise: a differential statement against an external library's "
